@@ -102,6 +102,15 @@ func c08templates() []c08tmpl {
 	add("nested: call in array in object", "{a: [«0:int», f2(«1:int», «2:int», k: «3:int»)], b: «4:int»}", true)
 	add("nested: embedded string in kwargs", `f2(«0:int», "x#{«1:int»}y#{«2:int»}", k: "z#{«3:int»}", j: «4:int»)`, true)
 	add("nested: receiver chain", "«0:o».m(«1:int», «2:int»)[«3:int»]", false)
+	// additional chain contexts: the arguments are written sub-expressions like any other and are evaluated
+	// once, in order, whether or not the context ends up skipping / replacing the call
+	add("lonely call on nil receiver: args and kwargs", "«0:nil»&.m(«1:int», «2:int», k: «3:int»)", true)
+	add("lonely call on nil receiver: chain arg and args", "«0:nil»&.(«1:int»)m(«2:int»)", false)
+	add("lonely call on non-nil receiver", "«0:o»&.m(«1:int», «2:int», k: «3:int»)", true)
+	add("thoughtful call failing (no such prop)", "«0:int»~.nope(«1:int», k: «2:int»)", true)
+	add("thoughtful call", "«0:o»~.m(«1:int», «2:int», k: «3:int»)", true)
+	add("strict call", "«0:o»=.m(«1:int», «2:int», k: «3:int»)", true)
+	add("lonely list chain with nil elements", "[nil, «0:o», nil]&@m(«1:int», «2:int», k: «3:int»)", true)
 	return ts
 }
 
@@ -148,7 +157,11 @@ func c08reproProgram(rng *rand.Rand) (src string, wantValue string) {
 	case 0:
 		return "({\\_}(" + pairs(":", false) + ")).p; {\\_.keys}(" + pairs(":", false) + ")", ""
 	case 1:
-		return "pr := {|v| v.p; v}\n{\\_}(" + strings.ReplaceAll(pairs(":", false), ": ", ": pr(") + strings.Repeat("", 0) + ")", "?"
+		var kw []string
+		for i, nm := range names {
+			kw = append(kw, fmt.Sprintf("%s: pr(%d)", nm, i+1))
+		}
+		return "pr := {|v| v.p; v}\n{\\_}(" + strings.Join(kw, ", ") + ")", "?"
 	case 2:
 		d := names[rng.Intn(n)]
 		return fmt.Sprintf("{\\%s}(%s, %s: 999)", d, pairs(":", false), d), fmt.Sprint(indexOf(names, d) + 1)
@@ -159,9 +172,9 @@ func c08reproProgram(rng *rand.Rand) (src string, wantValue string) {
 		d := names[rng.Intn(n)]
 		return fmt.Sprintf(`%%{%s, "%s": 999}["%s"]`, pairs(":", true), d, d), fmt.Sprint(indexOf(names, d) + 1)
 	case 5:
-		return "m := %{" + pairs(":", true) + "}\n%{**m}.p; %{**m}.keys.p; %{**m, 1: 2}.A", ""
+		return "m := %{" + pairs(":", true) + "}\n%{**m}.p; %{**m}.keys.p; %{1: 2, **m}.A", ""
 	case 6:
-		return "o := {" + pairs(":", false) + "}\n%{**o}.p; {**o}.p; {|**k| 1}; ({\\_}(**o)).p; %{**o}.keys", ""
+		return "o := {" + pairs(":", false) + "}\n%{**o}.p; {**o}.p; ({\\_}(**o)).p; %{**o}.keys.p; %{1: 2, **o}.A.p; %{**o}.values", ""
 	case 7:
 		return "o := {" + pairs(":", false) + "}\no.keys.p; o.values.p; o.items.p; o.A.p; o.S.p; o.repr.p; o@{|k, v| k.p}; o == {**o}", "true"
 	case 8:
@@ -209,6 +222,9 @@ func init() {
 			"`if` (condition before branches), `&&`/`||` and ** operands written before literal pairs are not in the statement's list and are not asserted",
 		},
 		Floor: func(m *fw.Merged) string {
+			if m.Counters["repro_generated_not_parsing"] > 0 {
+				return fmt.Sprintf("%d generated reproducibility programs do not parse (they observe nothing)", m.Counters["repro_generated_not_parsing"])
+			}
 			if m.Counters["order_cases_all_markers_seen"] < 80 || m.Counters["repro_programs"] < 150 {
 				return fmt.Sprintf("observed too little: %v", m.Counters)
 			}
@@ -422,6 +438,9 @@ func runC08(w *fw.W) {
 			os.Remove(f)
 		}
 		r := fw.Result{Verdict: fw.Held, Evals: evalsN + fresh, Counters: map[string]int{"repro_programs": 1, "repro_in_process_runs": evalsN, "repro_fresh_processes": fresh}}
+		if kind == "generated" && first.ParseErr != "" {
+			r.Counters["repro_generated_not_parsing"] = 1
+		}
 		if kind == "generated" {
 			r.Counters["repro_programs_hash_ordered"] = 1
 			r.DKeys = []string{"repro|" + fmt.Sprintf("%x", sha1.Sum([]byte(src)))[:12]}
